@@ -29,7 +29,7 @@ META = {
         "production >= demand, objective = total rolls (1e-6), OPTIMAL => total = optimum. Non-trivial = exact LP bound of "
         "the instance is fractional (ceil(LP) > LP) or optimum > ceil(sum size*demand / W) (custom: optimum > ceil(LP)). "
         "Distinct = canonical JSON of the case. solve_bp results with iterations > 0 fall in the known class "
-        "'bp-after-branching' (counted, not judged); solve_bp runs under a per-case step budget of 25x the work of "
+        "'bp-after-branching' (counted, not judged); solve_bp runs under a per-case step budget of 10x the work of "
         "solve_cg on the same input."
     ),
     "assumptions": [
@@ -45,11 +45,11 @@ META = {
 # stop: 25 % of the branched calls need > 13M events, 15 % of all calls > 20M), so a fixed 100x limit would cost
 # ~100 s per hit.  The work of a *root-only* call (the only bp results outside the known class) is one column
 # generation, i.e. the work solve_cg does on the same instance (measured ratio <= 1.12, evidence size
-# 'bp-root-only-steps-per-100-cg-steps').  The bp limit is therefore set per case to 25x the events solve_cg needs
-# on the same input (floor 1M): deterministic, >= 22x everything outside the known class (a root-only call used at
-# most 4 % of its limit over the quick and thorough corpora, evidence size 'bp-root-only-steps-per-100-limit'); a hit costs ~0.3 s.
+# 'bp-root-only-steps-per-100-cg-steps').  The bp limit is therefore set per case to 10x the events solve_cg needs
+# on the same input (floor 1M): deterministic, >= 8.9x everything outside the known class (a root-only call used at
+# most 11 % of its limit over the quick and thorough corpora, evidence size 'bp-root-only-steps-per-100-limit'); a hit costs ~0.3 s.
 STEP_LIMIT_CG = 400_000_000
-BP_FACTOR, BP_FLOOR = 25, 1_000_000
+BP_FACTOR, BP_FLOOR = 10, 1_000_000
 
 USABLE = ("OPTIMAL", "FEASIBLE")
 
@@ -412,7 +412,7 @@ KNOWN_CLASSES = {"bp-after-branching": bp_after_branching}
 
 SUBS = [
     Sub("cg_cutting_stock", run_cg, strategy=lambda tier: instances(tier), quick=450, thorough=3000, workers_quick=4, crash="inconclusive"),
-    Sub("bp_cutting_stock", run_bp, strategy=lambda tier: instances(tier), quick=250, thorough=1000, workers_quick=6, crash="inconclusive"),
+    Sub("bp_cutting_stock", run_bp, strategy=lambda tier: instances(tier), quick=250, thorough=800, workers_quick=6, crash="inconclusive"),
     Sub("cg_custom_pricing", run_cg_custom, strategy=lambda tier: pools(tier), quick=300, thorough=2000, workers_quick=2, crash="inconclusive"),
     Sub("bp_custom_pricing", run_bp_custom, strategy=lambda tier: pools(tier), quick=250, thorough=1200, workers_quick=4, crash="inconclusive"),
 ]
